@@ -75,7 +75,7 @@ func configs(quick bool) []Cfg {
 		{Name: "after-a-dropped-proposal", CurN: 2, CurT: 2, IncN: 2, IncT: 1, SigningPeriod: 3, MaxSigningAttempt: 1, CreationPeriod: 4,
 			InitDE: 3, MaxProposals: 2, MaxReq: 0, MaxTransitionSec: 60, FeePerSigner: 7, Events: againT, Depth: 11},
 		{Name: "stale-handover-signing", CurN: 2, CurT: 2, IncN: 2, IncT: 1, SigningPeriod: 6, MaxSigningAttempt: 3, CreationPeriod: 8,
-			InitDE: 6, MaxProposals: 2, MaxReq: 0, MaxTransitionSec: 15, FeePerSigner: 7, Events: append(append([]string{}, staleSig...), "sigany", "probe", "jump"), Depth: 14},
+			InitDE: 6, MaxProposals: 2, MaxReq: 0, MaxTransitionSec: 15, FeePerSigner: 7, Events: append(append([]string{}, staleSig...), "sigany", "probe", "jump"), Depth: 11},
 	}
 }
 
